@@ -450,6 +450,18 @@ func c03Enum(thorough bool) mc.Enum {
 			}})
 		}
 	}
+	// volume: one provider lapses on n files in the same reward block - its burn counter must read n afterwards
+	// (a counter that sticks or wraps shows only beyond 127 / 255)
+	for _, n := range []int{130, 260} {
+		n := n
+		e.Cases = append(e.Cases, mc.Case{Desc: fmt.Sprintf("volume|files=%d|one prover missing all", n), Run: func(env world.Env) mc.CaseResult {
+			var fs []c03File
+			for i := 0; i < n; i++ {
+				fs = append(fs, c03File{f: mkFile([]byte{byte(i), byte(i >> 8), 1, 2, 3, 4, 5, 6}, 4), size: 8, list: []string{"P1"}, fail: map[string]bool{"P1": true}})
+			}
+			return c03Run(env, fs, false, true)
+		}})
+	}
 	abandonedFiles := []*sfile{mkFile(seqBytes(9, 201), 4), mkFile(seqBytes(9, 202), 4), mkFile(seqBytes(9, 203), 4), mkFile(seqBytes(9, 204), 4)}
 	// two files
 	two := c03Provers[:2]
@@ -483,7 +495,7 @@ func c03Enum(thorough bool) mc.Enum {
 func init() {
 	CaseReplayers["C03/reward-block"] = func(r *mc.Run, c string) { r.ReplayCase(c03Enum(true), c) }
 	Props["C03"] = Prop{Level: "model_checking", Run: func(r *mc.Run, tier string) {
-		r.Rules = append(r.Rules, "bounded-exhaustive construction of the state at a reward block through real messages and blocks: every ordering of every non-empty subset of {P1,P2,P3} as prover list x every subset missing the last window x sizes {1,7,1000} x {2,3} gauges (one with two denominations) x young-file variant; the same with 11-day blocks, so that every payment gauge has run out and been swept before the reward block under test; two files x all list/fail combinations over 2 (thorough: 3) provers; thorough adds an unregistered prover. Non-trivial = at least one prover missed the window")
+		r.Rules = append(r.Rules, "bounded-exhaustive construction of the state at a reward block through real messages and blocks: every ordering of every non-empty subset of {P1,P2,P3} as prover list x every subset missing the last window x sizes {1,7,1000} x {2,3} gauges (one with two denominations) x young-file variant; one provider lapsing on 130 / 260 files in one reward block; the same with 11-day blocks, so that every payment gauge has run out and been swept before the reward block under test; two files x all list/fail combinations over 2 (thorough: 3) provers; thorough adds an unregistered prover. Non-trivial = at least one prover missed the window")
 		r.Assumptions = append(r.Assumptions, "the denominator of a share may be all listed bytes or all credited bytes (both size-weighted); one denominator for all provers is demanded", "ProofWindow 3, CheckWindow 2, 1-day blocks")
 		dl := time.Now().Add(50 * time.Second)
 		if tier == "thorough" {
